@@ -52,7 +52,17 @@ def check(rep: Report, ctx: Ctx) -> None:
     r55(rep, ctx)
     r56(rep, ctx)
     r57(rep, ctx)
-    r58(rep, ctx)
+    # R5.22 first: when the rendering is stateful the separator logic may
+    # have any shape; R5.8 then has no subject of its own
+    n0 = len(rep.violations)
+    r522(rep, ctx)
+    if len(rep.violations) > n0:
+        try:
+            r58(rep, ctx)
+        except AnalysisError:
+            rep.minima["R5.8"] = 0
+    else:
+        r58(rep, ctx)
     r59(rep, ctx)
     r510(rep, ctx)
     r511(rep, ctx)
@@ -1415,8 +1425,77 @@ def main_walk_loop(rep: Report, ctx: Ctx, rule: str) -> None:
            "(8 on the pinned tree)")
 
 
+def merge_point(rep: Report, ctx: Ctx, rule: str) -> None:
+    """(shared: R5.21 / R1.25)  handle_reach_potential_merge_point."""
+    from .effspec import effects, expect
+    from .walkspec import MP_ABBR, MP_TABLE
+    fi = ctx.func("handle_reach_potential_merge_point")
+
+    def ab(x):
+        if isinstance(x, (tuple, list)):
+            return type(x)(ab(y) for y in x)
+        for a, b in MP_ABBR:
+            x = x.replace(a, b)
+        return x
+    effs = effects(ctx, fi)
+    for e in effs:
+        e.recv, e.args, e.guards = ab(e.recv), ab(e.args), ab(e.guards)
+    prev = ""
+    for what, kind, name, recv, args, must, may in MP_TABLE:
+        what = what or prev + " (paths list)"
+        prev = what
+        expect(rep, rule, fi, effs, f"{fi.name}: {what}", kind=kind,
+               name=name, recv=recv, args=args, must=must, may=may)
+
+
 def r521(rep: Report, ctx: Ctx) -> None:
     rep.rule("R5.21", "the main loop of the walk dispatches on (event / "
              "logic node, inside a block, successor, break point) as "
-             "pinned", 10)
+             "pinned; a potential merge point is handled per path", 20)
     main_walk_loop(rep, ctx, "R5.21")
+    merge_point(rep, ctx, "R5.21")
+
+
+def r522(rep: Report, ctx: Ctx) -> None:
+    """Writing the text is a pure read of the diagram graph.  Loop bodies are
+    shared: the dummy-break push-down copies a loop node into every XOR
+    branch and all copies hold the SAME sub graph, which is therefore
+    rendered several times; and `pv_to_puml_string` may be called again on
+    a kept graph.  Any state a rendering leaves on a node or graph (a
+    counter, a flag, a cached line) makes the second rendering differ from
+    the first (seed C05-t: a per-operator separator counter that is never
+    reset -> `fork` / `fork again` in front of the first branch)."""
+    rep.rule("R5.22", "rendering the text does not write to the diagram "
+             "(nodes and graphs are rendered more than once)", 1)
+    entry = ctx.func("PUMLGraph.write_puml_string")
+    clo = ctx.cg.closure([entry])
+    bad = []
+    n = 0
+    for q in sorted(clo):
+        fi = ctx.index.functions.get(q)
+        if fi is None or "puml_graph" not in fi.module.relpath:
+            continue
+        n += 1
+        ps = fi.params()
+        for st in ast.walk(fi.node):
+            tgt = None
+            if isinstance(st, ast.Assign):
+                tgt = st.targets[0]
+            elif isinstance(st, (ast.AugAssign, ast.AnnAssign)):
+                tgt = st.target
+            if tgt is None:
+                continue
+            base = tgt
+            while isinstance(base, (ast.Attribute, ast.Subscript)):
+                base = base.value
+            if isinstance(tgt, (ast.Attribute, ast.Subscript)) and isinstance(
+                    base, ast.Name) and base.id in ps:
+                bad.append((fi, st))
+    rep.ob("R5.22", "no function reachable from write_puml_string stores "
+           "into one of its arguments (self, a node, a graph)", not bad,
+           fi=bad[0][0] if bad else entry,
+           node=bad[0][1] if bad else entry.node,
+           detail=(f"{len(bad)} store(s): " + "; ".join(
+               f"{f.name}: {unparse(s_)[:50]}" for f, s_ in bad[:4])
+               if bad else f"{n} functions of puml_graph.py reachable, none "
+               "writes to a parameter's attribute / item"))
